@@ -120,6 +120,8 @@ def tiger_flush_stack(vm):
 
 def tiger_getline_preamble_stack(vm):
     vm.readline()
+    # The whole line is handed to the caller: nothing of it is left for getchar.
+    vm.input_pos = len(vm.input_buffer)
     vm.registers[1] = len(vm.input_buffer) + 1
 
 
@@ -666,6 +668,8 @@ def tiger_flush_reg(vm):
 
 def tiger_getline_preamble_reg(vm):
     vm.readline()
+    # The whole line is handed to the caller: nothing of it is left for getchar.
+    vm.input_pos = len(vm.input_buffer)
     vm.registers[1] = len(vm.input_buffer) + 1
 
 
